@@ -1240,3 +1240,17 @@ mut('C09', 'cascade-not-resorted', BRANCHES,
 mut('C03', 'merge-despite-empty-selection', QUEUE,
     "    if not queues.mergeable_prs:\n        failed_prs = queues.failed_prs\n        if not failed_prs:\n            raise exceptions.NothingToDo()\n        else:\n            notify_queue_build_failed(failed_prs, job)\n            raise exceptions.QueueBuildFailed()\n",
     "    if not queues.mergeable_prs:\n        failed_prs = queues.failed_prs\n        if failed_prs:\n            notify_queue_build_failed(failed_prs, job)\n")
+
+# ------------------------------------- found by independent seeded changes
+mut('C02', 'seed-masterq-sync-check-weakened', BRANCHES,
+    "                if (masterq.get_latest_commit() !=\n                        masterq.dst_branch.get_latest_commit()):\n                    yield errors.MasterQueueNotInSync(masterq,",
+    "                if not masterq.includes_commit(\n                        masterq.dst_branch.get_latest_commit()):\n                    yield errors.MasterQueueNotInSync(masterq,")
+mut('C02', 'vertical-order-check-dropped', BRANCHES,
+    "            if prs:\n                # after this algorithm prs should be empty\n                yield errors.QueueInconsistentPullRequestsOrder()\n            else:",
+    "            if prs and hf_detected:\n                # after this algorithm prs should be empty\n                yield errors.QueueInconsistentPullRequestsOrder()\n            else:")
+mut('C02', 'validate-skips-vertical', BRANCHES,
+    "            errs.extend(self._vertical_validation(stack, versions))\n",
+    "            self._vertical_validation(stack, versions)\n")
+mut('C13', 'seed-handler-indexes-args', BERTE,
+    "                job.details = str(err)\n            elif",
+    "                job.details = str(err.args[0])\n            elif")
